@@ -30,6 +30,11 @@ def cmd_records(script):
             rec["terms"] = [term_io.export(cmd.args[0])]
             if name == "assert-soft":
                 rec["text"] = str(sorted((k, str(v)) for k, v in cmd.args[1]))
+            elif name in ("maximize", "minimize"):
+                rec["text"] = str(sorted((k, str(v)) for k, v in (cmd.args[1] or [])))
+        elif name in ("minmax", "maxmin"):
+            rec["terms"] = [term_io.export(t) for t in cmd.args[0]]
+            rec["text"] = str(sorted((k, str(v)) for k, v in (cmd.args[1] or [])))
         elif name in ("check-sat-assuming", "get-value"):
             rec["terms"] = [term_io.export(t) for t in cmd.args]
         elif name in ("declare-fun", "declare-const"):
